@@ -48,6 +48,10 @@ func (p *Program) ResolveKind(f *File, t *Type) (kind string, u *Type, uf *File,
 	if u.IsContainer() {
 		return u.Name, u, uf, nil
 	}
+	if u.Name == "i8" {
+		// Thrift's other spelling of byte: same values, same wire type
+		return "byte", u, uf, nil
+	}
 	if IsBase(u.Name) {
 		return u.Name, u, uf, nil
 	}
